@@ -79,6 +79,11 @@
 //	                          Open = gated invocations still open, Released = the one it lets go
 //	pending                   environment.VerifPendingAwait at a quiescent point
 //	teardown_begin / teardown_end, leak (N = call goroutines neither collected nor cancelled)
+//	hang                      the driven call has not returned HangSlack after the longest hook
+//	                          timeout of the set, nothing was recorded for HangConfirm more, no gate
+//	                          the occurrence could be waiting for is closed, and the driver goroutine
+//	                          sits in repository code (Msg = innermost repository function). The
+//	                          result carries Hang != ""; the lab must be abandoned (no Teardown)
 //	anomaly                   the lab could not do what it wanted (watchdog); monitors report
 //	                          these as inconclusive, never as verdicts
 //
@@ -105,6 +110,7 @@ import (
 	"sync"
 	"time"
 
+	"github.com/sirupsen/logrus"
 	"github.com/spf13/viper"
 
 	"github.com/AliceO2Group/Control/common/event"
@@ -132,6 +138,8 @@ type World struct {
 	leakBase int // call goroutines already leaked by earlier labs of this process
 
 	seenCollectors map[int]bool // runTasksAsHooks collector goroutines seen by earlier hook handler invocations
+
+	hookTimeouts map[string]int // task id -> number of "hook response timed out" messages of the environment
 }
 
 var (
@@ -170,12 +178,23 @@ func Setup() (*World, error) {
 		in.Taskman.MessageChannel = make(chan *task.TaskmanMessage, 64)
 		go func() {
 			for m := range in.Taskman.MessageChannel {
-				if m.GetMessageType() == taskop.ReleaseTasks {
+				switch m.GetMessageType() {
+				case taskop.ReleaseTasks:
 					ids := m.GetTasks().GetTaskIds()
 					in.EventCh <- event.NewTasksReleasedEvent(m.GetEnvironmentId(), ids, map[string]error{})
+				case taskop.TransitionTasks:
+					// only sent by the REAL transitions (environment.NewStopActivityTransition etc.), which
+					// the lab itself never uses: the auto-stop timer of the environment does (mon-env).
+					// All tasks "transition" at once and without error.
+					in.EventCh <- event.NewTasksStateChangedEvent(m.GetEnvironmentId(), m.GetTasks().GetTaskIds(), nil)
 				}
 			}
 		}()
+		// The environment reports that it has accounted a hook task as timed out only
+		// in its log ("hook response timed out"); the late-report script waits for that
+		// message, so warnings must reach logrus hooks (output stays discarded).
+		logrus.SetLevel(logrus.WarnLevel)
+		logrus.AddHook(&logHook{w: w})
 		w.Mgr = environment.NewEnvManager(in.Taskman, in.EventCh)
 		the.VerifSetWriter(topic.Environment, &capWriter{w: w})
 		world = w
@@ -187,6 +206,32 @@ func (w *World) lab(envId string) *Lab {
 	w.mu.Lock()
 	defer w.mu.Unlock()
 	return w.labs[envId]
+}
+
+// ---------------------------------------------------------------- log observation
+
+type logHook struct{ w *World }
+
+func (h *logHook) Levels() []logrus.Level { return []logrus.Level{logrus.WarnLevel} }
+func (h *logHook) Fire(e *logrus.Entry) error {
+	if e.Message != "hook response timed out" {
+		return nil
+	}
+	if tid, ok := e.Data["taskId"].(string); ok {
+		h.w.mu.Lock()
+		if h.w.hookTimeouts == nil {
+			h.w.hookTimeouts = map[string]int{}
+		}
+		h.w.hookTimeouts[tid]++
+		h.w.mu.Unlock()
+	}
+	return nil
+}
+
+func (w *World) timeoutsSeen(tid string) int {
+	w.mu.Lock()
+	defer w.mu.Unlock()
+	return w.hookTimeouts[tid]
 }
 
 // ---------------------------------------------------------------- capture of published events
